@@ -358,7 +358,7 @@ impl Property for C14 {
                     let (s_recv, s_tok, s_amt) = match b {
                         By::CollectorOtherArg(k) => match k % 3 {
                             0 => (receivers[(*receiver as usize + 1) % 3].clone(), taddr.clone(), a),
-                            1 => (receivers[*receiver as usize % NR].clone(), taddr.clone(), a.saturating_add(1)),
+                            1 => (receivers[*receiver as usize % NR].clone(), taddr.clone(), if a == i128::MAX { a - 1 } else { a + 1 }),
                             _ => (receivers[*receiver as usize % NR].clone(), tokens[(ti + 1) % 3].clone(), a),
                         },
                         _ => (receivers[*receiver as usize % NR].clone(), taddr.clone(), a),
@@ -381,7 +381,7 @@ impl Property for C14 {
                     let (s_msg, s_recv, s_amt) = match b {
                         By::CollectorOtherArg(k) => match k % 3 {
                             0 => ("msg", receivers[(*receiver as usize + 1) % 3].clone(), a),
-                            1 => ("msg", receivers[*receiver as usize % NR].clone(), a.saturating_add(1)),
+                            1 => ("msg", receivers[*receiver as usize % NR].clone(), if a == i128::MAX { a - 1 } else { a + 1 }),
                             _ => ("msg-2", receivers[*receiver as usize % NR].clone(), a),
                         },
                         _ => ("msg", receivers[*receiver as usize % NR].clone(), a),
